@@ -389,6 +389,15 @@ def refile (s : ImgState) (variant : PyVal) (id : Nat) (img : Image) : List PyVa
       let s' ← addPy s variant va id img
       refile s' variant id img rest
 
+/-- where a freshly read image goes: `_add_1_1` for old documents (a `src` entry is re-filed under the variant's
+other arches), `add` otherwise -/
+def fileLoaded (old : Bool) (s : ImgState) (images variant arch : PyVal) (n : Nat) (img : Image) : Except Err ImgState :=
+  if old then
+    if pyEq arch (.str (L "src")) then
+      (subscript images variant).bind iter >>= fun archs => refile s variant n img archs
+    else addPy s variant arch n img
+  else addPy s variant arch n img
+
 /-- the images of one `(variant, arch)` entry; `n` counts the objects created so far (fresh identities) -/
 def loadCell (ver : PyVal) (images variant arch : PyVal) : List PyVal → ImgState × Nat → Except Err (ImgState × Nat)
   | [], acc => .ok acc
@@ -396,13 +405,7 @@ def loadCell (ver : PyVal) (images variant arch : PyVal) : List PyVal → ImgSta
     let img ← Image.deserialize ver d
     let vt ← versionTuple ver
     let old ← gateEval Gen.gate_images_Images_deserialize_0 vt
-    let s' ←
-      if old then
-        if pyEq arch (.str (L "src")) then do
-          let archs ← (subscript images variant).bind iter
-          refile s variant n img archs
-        else addPy s variant arch n img
-      else addPy s variant arch n img
+    let s' ← fileLoaded old s images variant arch n img
     loadCell ver images variant arch rest (s', n + 1)
 
 def loadArches (ver : PyVal) (images variant archs : PyVal) : List PyVal → ImgState × Nat → Except Err (ImgState × Nat)
